@@ -6,6 +6,7 @@ import TensoraVerif.Model.GraphWire
 import TensoraVerif.Model.ParserWire
 import TensoraVerif.Model.ApiWire
 import TensoraVerif.Model.CPrint
+import TensoraVerif.Model.CTokens
 import TensoraVerif.Model.Ownership
 import TensoraVerif.Model.GenerateIR
 import TensoraVerif.Lemmas.PeepholeExact
@@ -226,6 +227,19 @@ def handle (cmd : String) (args : List Sexp) : Sexp :=
   | "CPRINTS", [s, .list reprs] =>
     match IR.Wire.stmtOf s with
     | some s => .str ("\n".intercalate (IR.cStmt (showFloat reprs) s))
+    | none => Sexp.mk "bad-request" [.str "unknown-constructor"]
+  | "CERT", [.atom "layered", m] =>
+    -- C06, per function of a module, over every printed expression of the body:
+    -- (Layered, LeftNested, StrictLayered, identsOk)
+    match IR.Wire.moduleOf m with
+    | some m => .list (m.defs.map fun f => .list [Sexp.ofBool f.body.layered,
+        Sexp.ofBool f.body.leftNested, Sexp.ofBool f.body.strictLayered, Sexp.ofBool f.body.identsOk])
+    | none => Sexp.mk "bad-request" [.str "unknown-constructor"]
+  | "CERT", [.atom "reassoc", m, .list reprs] =>
+    -- C06 / F10, per function: the C text of every printed expression C re-associates
+    match IR.Wire.moduleOf m with
+    | some m => .list (m.defs.map fun f =>
+        .list (f.body.reassociated.map fun e => .str (IR.cExpr (showFloat reprs) e)))
     | none => Sexp.mk "bad-request" [.str "unknown-constructor"]
   | "CERT", [.atom "hoist", m] =>
     match IR.Wire.moduleOf m with
